@@ -11,7 +11,11 @@ Reason(e) ==
          IF e.res # "ok" \/ e.wire_res # "ok" THEN "offset_panic"
          ELSE IF ~e.present \/ ~e.wire_present THEN "offset_absent"
          ELSE IF ~DurEq(e.back, e.d, OffsetTol) THEN "offset_off"
-         ELSE IF ~DurEq(e.wire_back, e.d, OffsetTol) THEN "offset_off_after_wire" ELSE ""
+         ELSE IF ~DurEq(e.wire_back, e.d, OffsetTol) THEN "offset_off_after_wire"
+         ELSE IF e.reuse_res # "ok" THEN "offset_panic"
+         ELSE IF ~e.reuse_present \/ ~DurEq(e.reuse_back, e.d, OffsetTol) THEN "offset_off_in_constructed_receiver"
+         ELSE IF ~e.zero_present \/ ~DurEq(e.zero_back, [neg |-> FALSE, sec |-> 0, nsec |-> 0], OffsetTol) THEN "zero_offset_not_recovered_after_receiver_reuse"
+         ELSE ""
     [] e.ev = "estimate" ->
          IF e.res # "ok" THEN "estimate_panic"
          ELSE IF ~(ValidInstant(e.send) /\ ValidDelay(e.delay)) THEN "harness_domain"
